@@ -186,3 +186,148 @@ for _p in range(4):
     _f = _mk(_p)
     globals()[_f.__name__] = _f
 del _f, _p
+
+
+# ------------------------------------------------------------------------------------------------ programs with map / parallel blocks (treated as units)
+from harness import exec_world as XW  # noqa: E402
+from aws_durable_execution_sdk_python.config import CompletionConfig, MapConfig, ParallelConfig  # noqa: E402
+
+ASSUMPTIONS = ASSUMPTIONS + XW.ASSUMPTIONS_EXEC + [
+    "map/parallel blocks run on the modelled thread pool inside the composed world (branches run one after the other in a solver-chosen order); log calls INSIDE a "
+    "block are not asserted (the property treats blocks as units); operations inside a block sit at the block's program position",
+]
+
+# program: L0 ; S0 ; L1 ; BLOCK ; L2 ; wait W ; L3 ; step F {log} ; L4
+B_OP_POS = {"S0": 3, "BLOCK": 10, "W": 14, "F": 19}
+B_LOG_POS = {"L0": 0, "in-S0": 2, "L1": 4, "L2": 12, "L3": 16, "in-F": 18, "L4": 20}
+INNER_POS = 9   # anything recorded inside the block
+
+
+def block_handler(kind, cap, executed, first):
+    def handler(event, ctx):
+        XW.World(choices=[first])
+        ctx.set_logger(cap)
+
+        def log(lg, site):
+            executed.append(site)
+            lg.info(site)
+
+        def st(site):
+            def fn(sc):
+                log(sc.logger, site)
+                return 1
+            return fn
+
+        log(ctx.logger, "L0")
+        ctx.step(st("in-S0"), name="S0")
+        log(ctx.logger, "L1")
+        if kind == 0:
+            # completes early (min_successful=1) while the other branch has finished an inner step and is parked on a long wait
+            def fast(c):
+                return c.step(lambda s: "f", name="f")
+
+            def slow(c):
+                c.step(lambda s: "s", name="s")
+                c.wait(Duration(3600), name="slow-wait")
+                return "slow"
+            ctx.parallel([fast, slow], name="BLOCK", config=ParallelConfig(completion_config=CompletionConfig(min_successful=1)))
+        elif kind == 1:
+            # in flight across two invocations: one branch done, the other parked on a short wait
+            def quick(c):
+                return c.step(lambda s: "q", name="q")
+
+            def napper(c):
+                c.step(lambda s: "s1", name="s1")
+                c.wait(Duration(5), name="nap")
+                return "n"
+            ctx.parallel([quick, napper], name="BLOCK")
+        else:
+            # tolerated failure + oversized result: recorded as summary with ReplayChildren, rebuilt by replay()
+            def item(c, x, i, items):
+                if i == 1:
+                    raise ValueError("item failed")
+                return c.step(lambda s: BIGV, name=f"m{i}")
+            ctx.map([0, 1], item, name="BLOCK", config=MapConfig(completion_config=CompletionConfig(tolerated_failure_count=1)))
+        log(ctx.logger, "L2")
+        ctx.wait(Duration(5), name="W")
+        log(ctx.logger, "L3")
+        ctx.step(st("in-F"), name="F")
+        log(ctx.logger, "L4")
+        return 1
+
+    return handler
+
+
+BIGV = "BIG" if h.MODE == "sx" else "B" * 300000
+
+if h.MODE == "sx":
+    def _mentions_big(v):
+        if isinstance(v, str):
+            return v == "BIG"
+        if isinstance(v, (list, tuple)):
+            return any(_mentions_big(x) for x in v)
+        if isinstance(v, dict):
+            return any(_mentions_big(x) for x in v.values())
+        return False
+
+    JsonModel.size_of = staticmethod(lambda v: 300000 if _mentions_big(v) else 10)
+
+
+def _mk_block(kind):
+    names = ["early_completion", "in_flight", "large_with_failed_item"]
+
+    def lem(first: int, psel: int, ci: int, cc: int):
+        """
+        pre: 0 <= first < 2 and 0 <= psel < 3 and 0 <= ci <= 1 and 1 <= cc <= 6
+        post: True
+        """
+        be = Backend(page_size=[None, 2, 4][psel])
+        if ci > 0:
+            be.crash_call = (ci, cc, "after")
+        per_inv = []
+        state = {}
+
+        def on_inv(i):
+            done = {op.name for op in be.ops.values() if op.status in TERMINAL}
+            state["cur"] = (done, [], Cap())
+            per_inv.append(state["cur"])
+
+        class ExecProxy(list):
+            def append(self, x):
+                state["cur"][1].append(x)
+
+        class CapProxy:
+            def info(self, msg, *args, extra=None):
+                state["cur"][2].info(msg, *args, extra=extra)
+
+            debug = warning = error = exception = info
+
+        res = run_execution(block_handler(kind, CapProxy(), ExecProxy(), first), be, max_invocations=6, on_invocation=on_inv)
+        h.check(res.deadlock is None and res.final is not None and res.final["Status"] == "SUCCEEDED", "execution did not finish")
+        if len(per_inv) >= 2:
+            h.reach("resumed")
+        for (done, executed, cap) in per_inv:
+            emitted = [m for (m, _x) in cap.records]
+            last_done = -1
+            for name in done:
+                pos = B_OP_POS.get(name, INNER_POS)
+                if pos > last_done:
+                    last_done = pos
+            for site in executed:
+                if B_LOG_POS[site] > last_done:
+                    h.check(site in emitted, "a log call made after the last previously-completed operation was swallowed")
+                else:
+                    h.check(site not in emitted, "a log call in code an earlier invocation already ran was emitted again")
+        h.end()
+
+    lem.__name__ = lem.__qualname__ = f"replay_logging_block_{names[kind]}"
+    return h.lemma(timeout=600, thorough_timeout=1800, funcs=FUNCS + ["concurrency.executor.ConcurrentExecutor.execute/replay/_execute_item_in_child_context"],
+                   reach=("end", "resumed"),
+                   bounds=f"program L0; S0; L1; BLOCK; L2; wait; L3; step F{{log}}; L4 with BLOCK = {names[kind]} (parallel/map); which branch runs first is solver-chosen; "
+                          "history page size none/2/4; optional process crash after API call 1..6 of invocation 1")(lem)
+
+
+for _k in range(3):
+    _f = _mk_block(_k)
+    globals()[_f.__name__] = _f
+del _f, _k
